@@ -600,8 +600,8 @@ class OneElecVerticalAnyL:
 
 
 class TwoElecRecursionsAnyL:
-    """_compute_two_elec_integrals, vertical and electron-transfer stages (everything before the contraction over the
-    primitives), for ALL l_a, l_b, l_c, l_d >= 0 that are not all zero, and ANY function F_m(T) used as the Boys function:
+    """_compute_two_elec_integrals as a WHOLE, for ALL l_a, l_b, l_c, l_d >= 0 that are not all zero, ANY Cartesian component
+    (a_x, a_y, a_z) with a_x + a_y + a_z = l_a (likewise b, c, d) and ANY function F_m(T) used as the Boys function:
 
       vertical table   V[m, a]:   V[m, 0]       = 2 pi^(5/2) / (zeta eta sqrt(zeta + eta)) F_m(rho |PQ|^2) e^(-mu_ab |AB|^2) e^(-mu_cd |CD|^2)
                                   V[m, a + 1_i] = PA_i V[m, a] - (rho/zeta) PQ_i V[m+1, a]
@@ -613,14 +613,28 @@ class TwoElecRecursionsAnyL:
                                                   + c_i / (2 eta) E[c - 1_i, a] - (zeta/eta) E[c, a + 1_i]
                        on the domain  |c| + |a| <= L,  c_i <= l_c + l_d
 
-    (zeta = a + b, eta = c + d, rho = zeta eta / (zeta + eta), P, Q the weighted centres).  The part that goes on to the
-    contraction and the horizontal recursions, E[c, a] with |c| <= l_c + l_d and |a| <= l_a + l_b, has been written.  The later
-    stages (where l / 2 appears as an exponent) are covered per shape only (contracts.coulomb:TwoElecKernel)."""
+      contraction      H[0, 0, c, a]          = sum over the primitives of N_a d_a N_b d_b N_c d_c N_d d_d E[c, a],  N = (2 alpha / pi)^(3/4) (4 alpha)^(l/2)
+      d_x, d_y         H[d + 1_i, c, a]       = H[d, c + 1_i, a] + (C_i - D_i) H[d, c, a]                 (i = x, y; d_z = 0)
+      d_z              H2[d_z + 1, c_z, a]    = H2[d_z, c_z + 1, a] + (C_z - D_z) H2[d_z, c_z, a],  H2[0, c_z, a] = H[(d_x, d_y), (c_x, c_y, c_z), a]
+      b_x, b_y         B[b + 1_i, a]          = B[b, a + 1_i] + (A_i - B_i) B[b, a],                B[0, a] = H2[d_z, c_z, a]
+      b_z              B2[b_z + 1, a_z]       = B2[b_z, a_z + 1] + (A_z - B_z) B2[b_z, a_z],        B2[0, a_z] = B[(b_x, b_y), (a_x, a_y, a_z)]
+      result[m_a, m_b, m_c, m_d]              = B2[b_z, a_z] / sqrt(prod over the twelve components k of (2k - 1)!!)
 
-    function = "gbasis.integrals._two_elec_int._compute_two_elec_integrals (vertical + electron-transfer recursions; any angular momenta)"
+    (zeta = a + b, eta = c + d, rho = zeta eta / (zeta + eta), P, Q the weighted centres; the selected components are the generic
+    ones of the four shells).  Each table is claimed on the domain the next stage reads from, every element read was written
+    before, every integer / component index is in range.  (4 alpha)^(l/2) and (2k-1)!! with symbolic l / k are opaque positive
+    atoms built identically on the specification side.  One generic component per shell stands for every row of the component
+    arrays: the rows are independent in the code (they only ever index), which the per-shape contract
+    contracts.coulomb:TwoElecKernel checks with all rows present."""
+
+    function = "gbasis.integrals._two_elec_int._compute_two_elec_integrals (whole kernel; any angular momenta, any component)"
 
     def shapes(self, tier):
-        return [dict(K=[2, 1, 1, 1])]
+        # numbers of primitives K and of segments M per shell (concrete; the angular momenta and components are not)
+        out = [dict(K=[2, 1, 1, 1]), dict(K=[1, 1, 2, 1], M=[1, 2, 1, 1])]
+        if tier == "thorough":
+            out.append(dict(K=[1, 2, 1, 2], M=[2, 2, 2, 2]))
+        return out
 
     def native(self, shape, M):
         from .coulomb import TwoElecKernel
@@ -631,16 +645,16 @@ class TwoElecRecursionsAnyL:
             except Exception:
                 return default
 
-        ls = [ext("la", 1), ext("lb", 0), ext("lc", 1), ext("ld", 0)]
+        ls = [ext("la", 1), ext("lb", 1), ext("lc", 1), ext("ld", 1)]  # default: every recursion stage does some work
         if sum(ls) == 0:
             ls[0] = 1
-        while sum(ls) > 3:
+        while sum(ls) > 4:
             ls[ls.index(max(ls))] -= 1
         before = len(M.results)
         wanted, M.wanted = M.wanted, None
         name = wanted or "anyLeri/native-kernel-equals-specification"
         try:
-            TwoElecKernel().run(dict(l=ls, K=[1, 1, 1, 1], M=[1, 1, 1, 1]), M)
+            TwoElecKernel().run(dict(l=ls, K=[1, 1, 1, 1], M=list(shape.get("M", [1, 1, 1, 1]))), M)
         except Exception as e:  # noqa
             M.wanted = wanted
             del M.results[before:]
@@ -672,11 +686,20 @@ class TwoElecRecursionsAnyL:
         Ka, Kb, Kc, Kd = shape["K"]
         cen = [M.vec(n, 3) for n in "ABCD"]
         ex = [M.vec(n, k, "pos") for n, k in zip("abcd", (Ka, Kb, Kc, Kd))]
-        co = [M.vec("d" + n, (k, 2 if n == "a" else 1)) for n, k in zip("abcd", (Ka, Kb, Kc, Kd))]
+        co = [M.vec("d" + n, (k, m_)) for n, k, m_ in zip("abcd", (Ka, Kb, Kc, Kd), shape.get("M", [2, 1, 1, 1]))]
         sizes = ["la", "lb", "lc", "ld"]
         ls = [G.Aff.var(n) for n in sizes]
         L = ls[0] + ls[1] + ls[2] + ls[3]
-        comps = np.array([[0, 0, 0]])
+        # one generic Cartesian component per shell: (acx, acy, acz) >= 0 with acx + acy + acz = l_a, ... (universally quantified,
+        # like the angular momenta themselves)
+        cnames = [[s_ + "c" + x for x in "xyz"] for s_ in "abcd"]
+        comps = []
+        for row in cnames:
+            arr = np.empty((1, 3), dtype=object)
+            for j, nm in enumerate(row):
+                arr[0, j] = G.Aff.var(nm)
+            comps.append(arr)
+        sizes = sizes + [nm for row in cnames for nm in row]
 
         def body(C_):
             seen_ = {}
@@ -694,30 +717,34 @@ class TwoElecRecursionsAnyL:
 
             end = None
             try:
-                with bind.patched((mod, "np", G.GNp(mod.np)), (mod, "range", G.grange)):
+                with bind.patched((mod, "np", G.GNp(mod.np)), (mod, "range", G.grange), (mod, "factorial2", gfactorial2)):
                     args = [boys]
                     for i in range(4):
-                        args += [cen[i], ls[i], comps, ex[i], co[i]]
-                    mod._compute_two_elec_integrals(*args)
+                        args += [cen[i], ls[i], comps[i], ex[i], co[i]]
+                    seen_["out"] = mod._compute_two_elec_integrals(*args)
             except G.StageEnd as e:
                 end = str(e)
             return end, seen_
 
         def setup(C_):
             C_.assumed.append(("ge", L, G.Aff.of(1)))  # precondition: not all four shells are s shells
+            for i, row in enumerate(cnames):  # precondition: the components of a shell add up to its angular momentum
+                C_.assumed.append(("eq", G.Aff.var(row[0]) + G.Aff.var(row[1]) + G.Aff.var(row[2]), ls[i]))
             C_.allow_extent_exponents = True
 
         cases = G.run_cases(sizes, body, setup)
         for cn, (C, (stage_end, seen)) in enumerate(cases):
-            self._check_case(M, C, stage_end, seen, sizes, shape, cen, ex, co, ls, L, "anyLeri" if len(cases) == 1 else "anyLeri/case%d" % cn)
+            self._check_case(M, C, stage_end, seen, sizes, shape, cen, ex, co, ls, L, "anyLeri" if len(cases) == 1 else "anyLeri/case%d" % cn, cnames)
 
-    def _check_case(self, M, C, stage_end, seen, sizes, shape, cen, ex, co, ls, L, pfx):
+    def _check_case(self, M, C, stage_end, seen, sizes, shape, cen, ex, co, ls, L, pfx, cnames):
         import z3
 
         Ka, Kb, Kc, Kd = shape["K"]
         cp = _case_premise(C, sizes)
-        M.true(pfx + "/recursion-stages-completed", stage_end is not None and C.ntab >= 3,
-               "the run reaches the selection of angular-momentum components with three tables filled (%s)" % stage_end)
+        M.true(pfx + "/recursion-stages-completed", stage_end is None and C.ntab == 6 and isinstance(seen.get("out"), G.GVal),
+               "the run goes through all six tables (vertical, transfer, d_x d_y, d_z, b_x b_y, b_z) and returns a value (%s; %d tables)" % (stage_end, C.ntab))
+        if stage_end is not None or C.ntab != 6 or not isinstance(seen.get("out"), G.GVal):
+            return
         tails = list(itertools.product(range(Kd), range(Kb), range(Kc), range(Ka)))
         envb, _ = G._z3env()
         prem0 = lambda env: [env("la") + env("lb") + env("lc") + env("ld") >= 1] + (cp(env) if cp else [])
@@ -884,6 +911,83 @@ class TwoElecRecursionsAnyL:
                                                                   ("lt", hv[2] + hv[3] + hv[4] + hv[0] + hv[1], lc_ + ld_ + 1), ("lt", hv[5] + hv[6] + hv[7], la_ + lb_ + 1)])
         check_events(M, C, sizes, htails, cand_h, base_h, pfx=pfx + "/contraction+horizontal-d", domain=dom_h, tid=2, domains=doms, extra_prem=prem0, returned=[ret_h])
 
+        # ---- tables 3, 4, 5: selection of the d_x, d_y, c_x, c_y components, d_z; selection of d_z, c_z, then b_x, b_y; selection of
+        # b_x, b_y, a_x, a_y, then b_z - for ANY component (acx, acy, acz), ... with the right sums
+        cv = [[G.Aff.var(nm) for nm in row] for row in cnames]  # a, b, c, d
+        ca, cb, cc, cd = cv
+
+        def horiz(name, lead, pairs, centre_pair, label):
+            """relations X[.. q+1 .., .. r ..] = X[.. q .., .. r+1 ..] + (centre difference) X[.. q .., .. r ..] for (q, r, axis) in pairs"""
+            def cand(idx, tail):
+                out_ = []
+                for qpos, rpos, axis in pairs:
+                    qi = idx[qpos]
+                    if qi.is_const() and qi.c == 0:
+                        continue
+                    low = list(idx)
+                    low[qpos] = qi - 1
+                    up = list(low)
+                    up[rpos] = idx[rpos] + 1
+                    diff = cen[centre_pair[0]][axis] - cen[centre_pair[1]][axis]
+                    rhs = C.named_atom(name, *(tuple(up) + (tail,))) + diff * C.named_atom(name, *(tuple(low) + (tail,)))
+                    out_.append(("the horizontal relation raising %s_%s" % (label, "xyz"[axis]), rhs, [qi - 1]))
+                return out_
+            return cand
+
+        t6 = [(0, 0) + t for t in htails]  # (L_d, L_c, m_a, m_c, m_b, m_d): one component each
+        t8 = [(0, 0, 0, 0) + t for t in htails]  # (L_b, L_a, L_d, L_c, m_a, m_c, m_b, m_d)
+
+        def base_d2(idx, tail):
+            if idx[0].is_const() and idx[0].c == 0:
+                return C.named_atom("S2", cd[0], cd[1], cc[0], cc[1], idx[1], idx[2], idx[3], idx[4], tail[2:])
+            return None
+
+        def dom_d2(env, dz, cz, ax, ay, az):
+            return z3.And(dz >= 0, cz >= 0, ax >= 0, ay >= 0, az >= 0, dz <= env("ld"), dz + cz <= env("dcz") + env("ccz"),
+                          ax + ay + az <= env("la") + env("lb"))
+
+        doms[3] = dom_d2
+        check_events(M, C, sizes, t6, horiz("S3", 0, [(0, 1, 2)], (2, 3), "d"), base_d2, pfx=pfx + "/select-xy+horizontal-d_z", domain=dom_d2, tid=3, domains=doms,
+                     extra_prem=prem0, returned=[])
+
+        def base_b(idx, tail):
+            if all(e.is_const() and e.c == 0 for e in idx[:2]):
+                return C.named_atom("S3", cd[2], cc[2], idx[2], idx[3], idx[4], tail)
+            return None
+
+        def dom_b(env, bx, by, ax, ay, az):
+            return z3.And(bx >= 0, by >= 0, ax >= 0, ay >= 0, az >= 0, bx <= env("lb"), by <= env("lb"), bx + by + ax + ay + az <= env("la") + env("lb"))
+
+        doms[4] = dom_b
+        check_events(M, C, sizes, t6, horiz("S4", 0, [(1, 3, 1), (0, 2, 0)], (0, 1), "b"), base_b, pfx=pfx + "/select-z+horizontal-b", domain=dom_b, tid=4, domains=doms,
+                     extra_prem=prem0, returned=[])
+
+        def base_b2(idx, tail):
+            if idx[0].is_const() and idx[0].c == 0:
+                return C.named_atom("S4", cb[0], cb[1], ca[0], ca[1], idx[1], tail[2:])
+            return None
+
+        def dom_b2(env, bz, az):
+            return z3.And(bz >= 0, az >= 0, bz <= env("lb"), bz + az <= env("bcz") + env("acz"))
+
+        doms[5] = dom_b2
+        out = seen["out"]
+        check_events(M, C, sizes, t8, horiz("S5", 0, [(0, 1, 2)], (0, 1), "b"), base_b2, pfx=pfx + "/select-xy+horizontal-b_z", domain=dom_b2, tid=5, domains=doms,
+                     extra_prem=prem0, returned=[r for r in out.reads])
+
+        # ---- the returned block: [a | b | c | d] component (1 each), segments (m_a, m_b, m_c, m_d)
+        okshape = out.data.shape == (1, 1, 1, 1, Ms[0], Ms[1], Ms[2], Ms[3]) and not out.sym
+        M.true(pfx + "/result/shape", okshape, "%s with symbolic axes %s" % (out.data.shape, sorted(out.sym)))
+        M.true(pfx + "/result/reads-the-last-table-only", len(out.reads) >= 1 and all(r.get("tid") == 5 for r in out.reads), "%d reads" % len(out.reads))
+        if okshape:
+            nrm = S.lift(1)
+            for row in cv:
+                for e in row:
+                    nrm = nrm * _dfact_atom((e * 2 - 1).to_sym())
+            for ma, mc, mb, md in htails:
+                want = C.named_atom("S5", cb[2], ca[2], (0, 0, 0, 0, ma, mc, mb, md)) / M.SF.sqrt(nrm)
+                M.eq(pfx + "/result/value" + str([ma, mb, mc, md]), out.data[0, 0, 0, 0, ma, mb, mc, md], want)
+
 
 def _dfact_atom(v):
     """(n)!! for a symbolic integer expression n (an opaque positive atom; the specification side builds the same one)"""
@@ -893,6 +997,12 @@ def _dfact_atom(v):
 def gfactorial2(x):
     if isinstance(x, G.GVal):
         return x.map(_dfact_atom)
+    if isinstance(x, np.ndarray) and x.dtype == object and all(isinstance(e, G.Aff) for e in x.reshape(-1)):
+        out = np.empty(x.shape, dtype=object)
+        of, xf = out.reshape(-1), x.reshape(-1)
+        for i in range(xf.size):
+            of[i] = _dfact_atom(xf[i].to_sym())
+        return out
     raise alg.Undecided("factorial2 of %r in a generic-element run" % (type(x),))
 
 
